@@ -505,6 +505,45 @@ func main() {
 		}
 		accepted(c, decodeWKB(c, b, 1))
 	})
+	// members in their own byte order: every member of a multi geometry or collection carries its own order byte,
+	// which may differ from the container's; its type word may carry flag bits (or stray bits that look like flags
+	// when read in the wrong order)
+	memberWords := []uint32{1, 2, 3, 4, 5, 6, 7, 0x21, 0x22, 0x23, 0x20000001, 0x20000002, 0x20000003, 0x01000000, 0x21000000, 0x80000001}
+	r.ExploreSharded("wkb-mixed-order-members", fmt.Sprintf("containers {multi-point, multi-line, multi-polygon, collection} x container order x 1..2 members x member order x %d member type words (valid kinds, SRID-flagged kinds, words with stray 0x20 / 0x21 bytes) with the payload of the kind in the low bits x every truncation: all decoders", len(memberWords)), mc.Opts{MaxDev: -1}, 16, func(c *mc.Ctx) {
+		ct := uint32(4 + c.Choose(4))
+		if !r.Owned(c, int(ct)) {
+			return
+		}
+		orders := []binary.ByteOrder{binary.LittleEndian, binary.BigEndian}
+		co := c.Choose(2)
+		u32 := func(o int, v uint32) []byte { b := make([]byte, 4); orders[o].PutUint32(b, v); return b }
+		obyte := func(o int) byte { return byte(1 - o) }
+		nm := 1 + c.Choose(2)
+		b := append(append([]byte{obyte(co)}, u32(co, ct)...), u32(co, uint32(nm))...)
+		for m := 0; m < nm; m++ {
+			mo := c.Choose(2)
+			w := memberWords[c.Choose(len(memberWords))]
+			b = append(append(b, obyte(mo)), u32(mo, w)...)
+			if w&0x20000000 != 0 {
+				b = append(b, u32(mo, 4326)...)
+			}
+			pt := make([]byte, 16)
+			switch w & 7 {
+			case 1:
+				b = append(b, pt...)
+			case 2:
+				b = append(append(b, u32(mo, 1)...), pt...)
+			case 3:
+				b = append(append(append(b, u32(mo, 1)...), u32(mo, 1)...), pt...)
+			case 4:
+				b = append(append(append(append(b, u32(mo, 1)...), obyte(mo)), u32(mo, 1)...), pt...)
+			default:
+				b = append(b, u32(mo, 0)...)
+			}
+		}
+		n := c.Choose(len(b) + 1)
+		accepted(c, decodeWKB(c, b[:len(b)-n], 1))
+	})
 	// counts whose product with a small element size wraps around 2^32 to (almost) nothing: a length guard computed
 	// in 32 bits lets exactly these through. For every multiplier m in 2..48 the counts ceil(t 2^32 / m) (+1) satisfy
 	// count*m mod 2^32 < 2m.
